@@ -83,6 +83,15 @@ def run(ctx):
         sc = ",".join(str(rng.choice([1, 7, 100, 16384])) for _ in range(rng.randrange(0, 8))) or "-"
         cops.append(op(backing, 10, 1, 1, sc, 0, 0, blob))
         want_ops.append(op("pipe", 10, 1, 1, "-", 0, 0, plain).replace("reader.lines", "reader.spec.lines"))
+    for k in (1, 2):
+        for delta in (-1, 0, 1):
+            first = pvlib.gz_exact(6 + 16384 * k + delta, bytes(rng.choice(b"abc\n\r ") for _ in range(6 + 16384 * k + delta)))
+            if first:
+                tail = bytes(rng.choice(b"xyz\n") for _ in range(5000))
+                blob = first[1] + gzip.compress(tail) + gzip.compress(b"last\n")
+                for backing in ("pipe", "file"):
+                    cops.append(op(backing, 10, 1, 1, "-", 0, 0, blob))
+                    want_ops.append(op("pipe", 10, 1, 1, "-", 0, 0, first[0] + tail + b"last\n").replace("reader.lines", "reader.spec.lines"))
     ca = pvlib.run_lines(impl, cops, env=pvlib.san_env(), timeout=600)
     cw = pvlib.run_lines(pvlib.PVDRIVER, want_ops)
     ctx.count("reader.compressed", len(cops), cops)
